@@ -44,6 +44,12 @@ def gen(tier, rng):
         for mode in "sa":
             f[1] = mode
             cases.append("\t".join(f))
+    # the pooled transports, sync and tokio, against peers that drop or refuse: each is compared with the pool model
+    # (a parked connection that the peer closed is replaced, the message still reaches the wire)
+    from tools.props import c08
+    pooled = [c for c in c08.gen("quick", rng) if c.startswith("sched") and "W" not in c.split("\t")[8].split(",")]
+    dropped = [c for c in pooled if ":d" in c.split("\t")[7] or ":x" in c.split("\t")[7]]
+    cases += dropped[:{"quick": 120, "search": 300, "thorough": 600}[tier]]
     return cases
 
 
